@@ -70,3 +70,13 @@ check('C08',
       'value), dispatch outside each asset window is checked at box points and optima, and take rows are recomputed independently.',
       TB + 'Assets with a coarser frequency are excluded from the window oracle (their windows are the subject of the C19 known finding).',
       'Coq proof + differential correspondence + metamorphic implementation oracle (with/without outside element)', 'DESIGN.md 5 C08')
+check('C20',
+      'Theorems about the order-book problem (any number of orders, any grid): every feasible point executes each order at a fraction in '
+      '[0,1]; the reported dispatch at a step is the sum over orders covering it of fraction x capacity x step length; the cost of an '
+      'order is capacity x price x discounted covered duration; every mapping row carries the full-execution flag; an order without a '
+      'step is inert. The builder is compared with OrderBook.setup_optim_problem (incl. DST grids, straddling / off-grid / outside '
+      'orders, full_exec, wacc); on every solved portfolio the fractions, 0/1 flags, delivery per step, payment per order and the cash '
+      'flow are recomputed from the output tables and the calendar, and the optimum is compared with an independently written '
+      'formulation (one execution variable per order, harness/ref.py, HiGHS) in which EAO\'s dispatch must be feasible.',
+      TB + 'The independent formulation is supporting evidence and the failing-input search, not a proof.',
+      'Coq proof + differential correspondence + implementation oracle + independent reference formulation', 'DESIGN.md 5 C20')
